@@ -41,9 +41,10 @@ func Corpus() []*Hist {
 		// known: the deleted file's root chunk is an inner chunk of another registered file: it is removed unconditionally
 		{Kind: "corpus-delete-shared-root", Base: baseKey, Cap: 100, Files: []FileSpec{fa("a.bin", 0, 1), fb("b", 0, 1)}, Ops: []Op{
 			{K: "upload", F: 0}, {K: "upload", F: 1}, {K: "transfer", F: 1}, {K: "delete", F: 1}}},
-		// known: same through eviction (the bare file is cached, the manifest uploaded)
-		{Kind: "corpus-gc-shared-root", Base: baseKey, Cap: 2, Files: []FileSpec{fa("a.bin", 0, 1), fb("b", 0, 1)}, Ops: []Op{
-			{K: "fetchpyr", F: 1}, {K: "fetch", F: 1, Leaves: all(2)}, {K: "upload", F: 0}, {K: "gc"}}},
+		// known: same through eviction: the bare one-chunk file is cached (a bare multi-chunk reference cannot be
+		// fetched: the pyramid exchange needs the whole content to rule out a manifest), then the manifest over it is uploaded
+		{Kind: "corpus-gc-shared-root", Base: baseKey, Cap: 1, Files: []FileSpec{fa("a.bin", 0), fb("b", 0)}, Ops: []Op{
+			{K: "fetchpyr", F: 1}, {K: "upload", F: 0}, {K: "gc"}}},
 		// clean: two cached files sharing a chunk; the older one is evicted, the shared chunk stays; then the second
 		{Kind: "corpus-gc-clean-shared", Base: baseKey, Cap: 8, Files: []FileSpec{fa("a.bin", 0, 1), fa("c.bin", 1, 3)}, Ops: []Op{
 			{K: "fetchpyr", F: 0}, {K: "fetch", F: 0, Leaves: all(2)}, {K: "fetchpyr", F: 1}, {K: "fetch", F: 1, Leaves: all(2)}, {K: "gc"}, {K: "gc"}, {K: "read", F: 1}}},
